@@ -40,8 +40,37 @@ def main(tier_="quick"):
     del r4["events"][idx[1]]
     ok4, d4, n4, first4, _ = validate_lookup_trace(r4, case)
     results["drop_dpath_read"] = dict(accepted=bool(ok4), detected=not ok4)
+    # 5.-7. TraceMkdir2: a two-process mkdir_all run is accepted; a corrupted mkdirat name, a dropped mkdirat and a
+    # flipped EEXIST result are rejected
+    from checks import mkrm
+    tname, calls = mkrm.MK2_SCENARIOS["S2"]
+    mcase = dict(id="selfmk", tree=mkrm.CONC_TREES[tname], feat={"openat2": True}, trace=True, raw=False, procs=2, calls=[dict(c, proc=pi) for pi, c in enumerate(calls)],
+                 order=[0, 1, 0, 0, 1, 1, 0] + [0] * 400, post=True)
+    mres = run_pv([mcase], jobs=1, tag="selfmk")[0]
+    def mk2(r):
+        o = trace_conformance("MC_TraceMkdir2.tla", "TraceMkdir2.cfg", project_mkdir2, [(mcase, r)], batch=1)
+        return o["accepted"] == 1 and not o["drift"] and not o["invariant_violations"], (o["drift"] or [{}])[0].get("at_event")
+    okm, _ = mk2(mres)
+    results["genuine"]["tracemkdir2_accepted"] = okm
+    m1 = copy.deepcopy(mres)
+    mk = [e for e in m1["events"] if e.get("ev") == "sys" and e.get("nr") == "mkdirat"]
+    mk[1]["path"] = "zz"
+    a1, at1 = mk2(m1)
+    results["mkdir2_corrupt_mkdirat_name"] = dict(accepted=a1, rejected_at=at1, detected=not a1)
+    m2 = copy.deepcopy(mres)
+    i2 = [i for i, e in enumerate(m2["events"]) if e.get("ev") == "sys" and e.get("nr") == "mkdirat"][0]
+    del m2["events"][i2]
+    a2, at2 = mk2(m2)
+    results["mkdir2_drop_mkdirat"] = dict(accepted=a2, rejected_at=at2, detected=not a2)
+    m3 = copy.deepcopy(mres)
+    ee = [e for e in m3["events"] if e.get("ev") == "sys" and e.get("nr") == "mkdirat" and e.get("ret") == -17]
+    if ee:
+        ee[0]["ret"] = 0
+        ee[0]["new_id"] = 12
+    a3, at3 = mk2(m3)
+    results["mkdir2_flip_eexist"] = dict(accepted=a3, rejected_at=at3, detected=bool(ee) and not a3)
     print(json.dumps(results, indent=1))
-    allok = results["genuine"]["tracefs_bad"] == 0 and results["genuine"]["tracefs_kmm"] == 0 and results["genuine"]["tracelookup_accepted"] and all(
+    allok = results["genuine"].get("tracemkdir2_accepted") and results["genuine"]["tracefs_bad"] == 0 and results["genuine"]["tracefs_kmm"] == 0 and results["genuine"]["tracelookup_accepted"] and all(
         v.get("detected") for k, v in results.items() if k != "genuine")
     os.makedirs(EVID, exist_ok=True)
     json.dump(dict(binding_selftest=results, ok=allok), open(os.path.join(EVID, "binding_selftest.json"), "w"), indent=1)
